@@ -318,6 +318,7 @@ def submit_transfer(w, idx):
                                    start=t.get('start', 0), name=f'src{idx}',
                                    fault=('src:read' in faults and _is_victim(w, idx)))
             info['stream'] = fileobj
+            fileobj.track = bool(w.scn.get('track_buffers'))
             if src == 'duck':
                 fileobj = DuckStream(fileobj)
         fut = m.upload(fileobj, BUCKET, info['key'], extra_args=extra, subscribers=subs)
